@@ -185,6 +185,11 @@ func preprocess(workerID string, seed *models.Item) {
 			}
 		}
 
+		// URL.String() finishes the canonicalisation lazily: its first call rewrites the parsed
+		// host (idna.ToASCII) and re-encodes the query. Make that call now, so that the filters
+		// below look at the very host and text the request is going to be built from.
+		_ = items[i].GetURL().String()
+
 		// Apply include filters first, if any are defined
 		if len(config.Get().IncludeHosts) > 0 || len(config.Get().IncludeString) > 0 {
 			if !utils.StringContainsSliceElements(items[i].GetURL().GetParsed().Host, config.Get().IncludeHosts) &&
